@@ -6,6 +6,7 @@
 import MpirProofs.Lemmas.GcdLoop
 import MpirProofs.Lemmas.GcdMpz
 import MpirProofs.Lemmas.GcdExt1
+import MpirProofs.Lemmas.GcdExtZ
 import MpirProofs.Lemmas.GcdJacobi
 namespace Mpir.C07
 open Mpir Mpir.Gcd
@@ -121,6 +122,36 @@ theorem lcm_spec (hc : MpnGcdContract) (u v : Int) (w : Nat) (hw : w < B) :
 
 example : mpz_lcm_ui (-12) 18 = 36 := by decide +kernel
 example : lcmSpec (-12) 18 = 36 := by decide
+
+/-- mpz_gcdext (operand swap by limb count, zero operand, sign fix of the first cofactor, second
+    cofactor by (g - a·s)/b, exchange of the outputs after a swap): for all a, b the triple satisfies
+    the manual's full contract `gcdextOk` — g = gcd ≥ 0, a·s + b·t = g, |s| < |b|/(2g), |t| < |a|/(2g)
+    with the special cases |a| = |b|, b ∣ a, |b| = 2g, |a| = 2g, zero operands, and s = 0 ↔ g = |b| —
+    given only the documented contract of mpn_gcdext for its single cofactor (`MpnGcdextContract`,
+    on calls satisfying the C's ASSERTs).  The normalisation of the second cofactor is derived. -/
+theorem mpz_gcdext_spec (hc : MpnGcdextContract) (a b : Int) :
+    gcdextOk a b (mpz_gcdext a b).1 (mpz_gcdext a b).2.1 (mpz_gcdext a b).2.2 :=
+  Mpir.Gcd.mpz_gcdext_spec hc a b
+
+example : mpz_gcdext 240 46 = (2, -9, 47) := by decide +kernel
+example : gcdextOk 240 46 2 (-9) 47 := by decide
+example : ¬ gcdextOk 240 46 2 14 (-73) := by decide
+
+/-- the manual's conditions determine (g, s, t) uniquely ("these relations define s and t uniquely"). -/
+theorem gcdext_unique (a b g s t g' s' t' : Int) :
+    gcdextOk a b g s t → gcdextOk a b g' s' t' → g = g' ∧ s = s' ∧ t = t' :=
+  gcdextOk_unique a b g s t g' s' t'
+
+/-- mpz_invert for a modulus of absolute value above 1: returns non-zero iff gcd(a, m) = 1, and then
+    the result r satisfies 0 ≤ r < |m| and a·r ≡ 1 (mod m); for every sign of a and m. -/
+theorem invert_spec (hc : MpnGcdextContract) (a m : Int) (hm : 1 < m.natAbs) :
+    match mpz_invert a m with
+    | none => invertOk a m 0 0
+    | some r => invertOk a m 1 r :=
+  Mpir.Gcd.invert_spec hc a m hm
+
+example : mpz_invert (-3) (-7) = some 2 := by decide +kernel
+example : mpz_invert 6 9 = none := by decide +kernel
 
 /-! ## Jacobi / Kronecker -/
 
